@@ -6,6 +6,24 @@ ALL = ["C%02d" % i for i in range(1, 21)]
 
 # property id -> dict(category, text, note, technique, design_ref)
 CLAIMED = {
+    "C02": dict(
+        category="other",
+        text="Abstract wire-fragment evaluation of all 25 public command methods of Client with the exchange function inlined (347 wire variants): each must match the protocol grammar of its verb using only literals, sanitised keys, sanitised integers and a length-coupled data block (no tainted fragment); all validation precedes connect/send; integer sanitizers decided over type classes; the empty key and the per-class key wrappers are checked here, key sanitizer strength itself in C20. Numeric ranges, exotic codecs and a server-grade parser are not decided.",
+        note="Trusted: CPython ast; path interpreter; fragment transformers; grammar tables (protocol.txt). Three known findings (empty key; gat/gats with expire=None).",
+        technique="finite abstract evaluation over a wire-fragment domain (taint + grammar) and call-order rules",
+    ),
+    "C04": dict(
+        category="other",
+        text="Structural necessary conditions of the store/fetch round trip: length prefix and data block are the same converted value in every store variant; caller-supplied key collections traversed once or materialised; the fetch path maps the prefixed wire key back to the caller's key object and deserialises with that key, that line's bytes and flags, returning the found item itself; store results keyed by the caller's key; every key-addressed command uses self.key_prefix. Bit-for-bit equality, value sizes and serializer round trips (C15) are not decided.",
+        note="Trusted: CPython ast; wire-fragment transformers.",
+        technique="def-use and fragment-coupling rules over the store/fetch paths",
+    ),
+    "C05": dict(
+        category="other",
+        text="Reply tables equal the protocol/contract tables and are exhaustive; each method sends its documented verb, requests cas tokens exactly in the gets family and validates replies under that verb; the code after the exchange of delete/touch/flush_all/incr/decr/version is evaluated on every reply token of the verb's alphabet and must return the documented value; noreply constants, defaults and the resolution of None to default_noreply are decided. Everything over histories (cas races, expiry, equivalence with a map model) is not decided.",
+        note="Trusted: CPython ast; path interpreter; wire evaluator; tables in pmcsa/spec.py.",
+        technique="table conformance + finite abstract evaluation of reply -> return decisions",
+    ),
     "C03": dict(
         category="other",
         text="Carry-over state rules of the three readers and three exchange loops on every path: liveness of received chunks and leftovers (none overwritten or left behind before flowing into the result, the next reader or the returned leftover), EINTR retried at the single recv site and nothing else swallowed, no dependence on the receive size, the segment reader's end-token search runs on an accumulating buffer with an offset that goes back at least len(token)-1 bytes (linear normal form), the sized reader touches payload by position only. NOT decided: the byte arithmetic of _readvalue/_readline across pieces and equality of results over all segmentations (numeric loop invariants).",
